@@ -84,7 +84,8 @@ def make_generator(plan):
     return UserGen([decode(t) for t in plan.get('userids', [])])
 
 
-def build_metamodel(schema, id_generator):
+def build_metamodel(schema, id_generator, opt=None):
+    opt = opt or {}
     m = xtuml.MetaModel(id_generator)
     for c in schema['classes']:
         m.define_class(c, [(a['n'], a['t']) for a in schema['attrs'][c]])
@@ -92,9 +93,15 @@ def build_metamodel(schema, id_generator):
         ass = m.define_association(a['rel'], a['src'], a['skeys'], a['smany'], a['scond'], a['sphrase'],
                                    a['tgt'], a['tkeys'], a['tmany'], a['tcond'], a['tphrase'])
         ass.formalize()
-    for c in schema['classes']:
+    referred = {c: set(k for a in schema['assocs'] if a['tgt'] == c for k in a['tkeys']) for c in schema['classes']}
+    for j, c in enumerate(schema['classes']):
         for u in schema['uniques'].get(c, []):
-            m.define_unique_identifier(c, u['name'], *u['attrs'])
+            if opt.get('spell_ident') and set(u['attrs']) <= referred[c]:
+                # C10: an identifier declared under other spellings of the class and attribute names constrains the same
+                # stored values (only identifiers over referred keys: their null check does not go by the declared names)
+                m.define_unique_identifier(spell(c, j + 1), u['name'], *[spell(n, j + k + 1) for k, n in enumerate(u['attrs'])])
+            else:
+                m.define_unique_identifier(c, u['name'], *u['attrs'])
     return m
 
 
@@ -102,7 +109,7 @@ class World(object):
     def __init__(self, plan):
         self.schema = plan['schema']
         self.plan = plan
-        self.m = build_metamodel(self.schema, make_generator(plan))
+        self.m = build_metamodel(self.schema, make_generator(plan), plan.get('opt'))
         self.h = {c: [] for c in self.schema['classes']}     # class -> handles by ordinal-1
         self.types = {c: {a['n']: a['t'] for a in self.schema['attrs'][c]} for c in self.schema['classes']}
         self.genkind = plan.get('gen', 'int')
